@@ -310,8 +310,10 @@ def step (sp : Spec) (w : World) : Event → World
           -- (not a MistralException: it escapes run_task and the transaction rolls back)
           if r.state == .SUCCESS then w
           -- … ignores the request (it is not a rerun: `resume` queued it for a task that was still
-          -- IDLE) if the task has completed in the meantime: the original start request has run it
-          else if isCompleted r.state then w
+          -- IDLE) if the task has completed in the meantime: the original start request has run it;
+          -- `run_task` still ends with `_check_affected_tasks` (the joins the completed task can reach get
+          -- one more refresh if none is scheduled)
+          else if isCompleted r.state then checkAffected sp w t
           -- … and ignores the request if the task is already running its action
           else if r.state == .RUNNING && hasLiveAction w t then w
           else { w with tasks := setTask w.tasks { r with state := .RUNNING, processed := false },
